@@ -214,6 +214,11 @@ func propReaderFailure(t *rapid.T) {
 			err, gotSig = e, sig != nil
 		}
 	}
+	// (for an ephemeral key nothing below this call refers to the key object: the call is its last use)
+	var kept *secec.PrivateKey
+	if reuse {
+		kept = key
+	}
 	panicked := lib.Catch(func() {
 		if source == "argument" {
 			call(rd)
@@ -224,7 +229,7 @@ func propReaderFailure(t *rapid.T) {
 	if panicked != nil && (ek != "panic" || j >= 32) {
 		t.Fatalf("%s panicked: %v", api, panicked)
 	}
-	if reuse {
+	if kept != nil {
 		// The same key object signs again, deterministically: whatever the failed (or panicked and
 		// recovered) call left behind, the nonce is the RFC 6979 function of key and digest, and the
 		// call returns.
@@ -238,7 +243,7 @@ func propReaderFailure(t *rapid.T) {
 			var r2, s2 *secp256k1.Scalar
 			var v2 byte
 			var err2 error
-			returned, p2, stuck := lib.Watch(func() { r2, s2, v2, err2 = key.SignRaw(secec.RFC6979SHA256(), digest2) })
+			returned, p2, stuck := lib.Watch(func() { r2, s2, v2, err2 = kept.SignRaw(secec.RFC6979SHA256(), digest2) })
 			if !returned {
 				t.Fatalf("SignRaw on a key whose previous entropy source failed (%s after %d bytes) never returns: the call is parked with nobody left to wake it: %s", ek, j, stuck)
 			}
